@@ -519,7 +519,7 @@ func tryReplay(w *World, fn, ob string, o *ObResult, rep map[string]interface{})
 	return false
 }
 
-var ghostBuiltins = map[string]bool{"fold": true, "foldH": true, "fresh": true, "seen": true, "capturedVar": true, "fnIs": true, "atHead": true, "atEntry": true, "built": true}
+var ghostBuiltins = map[string]bool{"fold": true, "foldH": true, "fresh": true, "seen": true, "capturedVar": true, "fnIs": true, "atHead": true, "atEntry": true, "built": true, "iter": true}
 
 // usesGhost: the clause mentions ghost state that the executable form cannot evaluate.
 func usesGhost(cl *Clause) bool {
